@@ -167,7 +167,84 @@ func (e *Exec) globalVar(o *types.Var) string {
 	if isErrorType(o.Type()) {
 		e.global(name+"_ne", fmt.Sprintf("(assert ((_ is E) %s))", name))
 	}
+	if pat, ok := e.w.regexpPattern(o); ok {
+		// var re = regexp.MustCompile("<constant>"), never assigned again: the expression's source is known
+		e.global(name+"_pat", fmt.Sprintf("(assert (= (rePat %s) %s))", name, smtString(pat)))
+	}
 	return name
+}
+
+// regexpPattern: the constant pattern of a package-level `var x = regexp.MustCompile(<const>)` that nothing in its
+// package assigns or takes the address of.
+func (w *World) regexpPattern(o *types.Var) (string, bool) {
+	if w.rePats == nil {
+		w.rePats = map[*types.Var]string{}
+		for _, p := range w.Pkgs {
+			written := map[types.Object]bool{}
+			for _, f := range p.Syntax {
+				ast.Inspect(f, func(n ast.Node) bool {
+					mark := func(x ast.Expr) {
+						if id, ok := x.(*ast.Ident); ok {
+							if ob := p.TypesInfo.Uses[id]; ob != nil {
+								written[ob] = true
+							}
+						}
+					}
+					switch n := n.(type) {
+					case *ast.AssignStmt:
+						for _, l := range n.Lhs {
+							mark(l)
+						}
+					case *ast.IncDecStmt:
+						mark(n.X)
+					case *ast.UnaryExpr:
+						if n.Op == token.AND {
+							mark(n.X)
+						}
+					}
+					return true
+				})
+			}
+			for _, f := range p.Syntax {
+				for _, d := range f.Decls {
+					gd, ok := d.(*ast.GenDecl)
+					if !ok || gd.Tok != token.VAR {
+						continue
+					}
+					for _, sp := range gd.Specs {
+						vs := sp.(*ast.ValueSpec)
+						if len(vs.Names) != len(vs.Values) {
+							continue
+						}
+						for i, nm := range vs.Names {
+							v, ok := p.TypesInfo.Defs[nm].(*types.Var)
+							if !ok || written[v] {
+								continue
+							}
+							call, ok := vs.Values[i].(*ast.CallExpr)
+							if !ok || len(call.Args) != 1 {
+								continue
+							}
+							sel, ok := call.Fun.(*ast.SelectorExpr)
+							if !ok {
+								continue
+							}
+							fn, ok := p.TypesInfo.Uses[sel.Sel].(*types.Func)
+							if !ok || fn.Pkg() == nil || fn.Pkg().Path() != "regexp" || fn.Name() != "MustCompile" {
+								continue
+							}
+							tv := p.TypesInfo.Types[call.Args[0]]
+							if tv.Value != nil && tv.Value.Kind() == constant.String {
+								w.rePats[v] = constant.StringVal(tv.Value)
+							}
+						}
+					}
+				}
+			}
+		}
+	}
+	pat, ok := w.rePats[o]
+	return pat, ok
 }
 
 func (e *Exec) evalBinary(x *ast.BinaryExpr, st *State, ctx *Ctx) string {
